@@ -4,6 +4,8 @@ and record which checks report a VIOLATION.  Writes seeded/MATRIX.json and updat
 import json, os, subprocess, sys
 sys.path.insert(0, '/verif')
 from mokalint.props import PROPERTIES
+sys.path.insert(0, '/verif/tools')
+from _runall import run_all
 only = sys.argv[1:]
 seeded = '/verif/seeded'
 res = {}
@@ -16,13 +18,12 @@ for d in sorted(os.listdir(seeded)):
         res[d] = 'PATCH-FAILS'; continue
     caught, failed = [], []
     try:
-        for pid in sorted(PROPERTIES):
-            r = subprocess.run(['./check', pid], cwd='/verif', capture_output=True, text=True)
-            if r.returncode == 1 and 'VIOLATION property=' in r.stdout:
-                rules = sorted({l.strip().split()[0] for l in r.stdout.splitlines() if l.startswith('  ')})
+        for pid, (rc, lines) in sorted(run_all().items()):
+            if rc == 1 and any('VIOLATION property=' in l for l in lines):
+                rules = sorted({l.strip().split()[0] for l in lines if l.startswith('  ')})
                 caught.append('%s(%s)' % (pid, ','.join(rules)))
-            elif r.returncode != 0:
-                failed.append('%s:%s' % (pid, r.stdout.strip().splitlines()[-1][:150] if r.stdout.strip() else r.stderr[-150:]))
+            elif rc != 0:
+                failed.append('%s:%s' % (pid, lines[-1][:150] if lines else ''))
     finally:
         subprocess.run(['git', '-C', '/repo', 'checkout', '--', '.'])
     res[d] = {'caught_by': caught, 'check_failed': failed}
@@ -31,5 +32,8 @@ for d in sorted(os.listdir(seeded)):
     mp = os.path.join(seeded, d, 'meta.json')
     m = json.load(open(mp)); m['caught_by'] = caught; m['check_failed_closed'] = failed
     json.dump(m, open(mp, 'w'), indent=1)
-if not only:
-    json.dump(res, open(os.path.join(seeded, 'MATRIX.json'), 'w'), indent=1)
+mp = os.path.join(seeded, 'MATRIX.json')
+old = json.load(open(mp)) if os.path.exists(mp) and only else {}
+old.update(res)
+json.dump(old, open(mp, 'w'), indent=1, sort_keys=True)
+print(len(old), 'total; missed:', [k for k, v in old.items() if isinstance(v, dict) and not v['caught_by']], '; check_failed:', [k for k, v in old.items() if isinstance(v, dict) and v['check_failed']])
